@@ -67,6 +67,9 @@ P = {
  "C16": ("runtime monitor: API-surface sweep at domain edges in worker processes with panic capture, a capped global allocator, a fuel hook on every series/Newton/Euclid loop (logical step budget, not wall clock) and an outer wall-clock watchdog whose firing is inconclusive; expected outcome (must panic / never panics / may) from a table of the documented preconditions",
          "Runtime monitoring of ~300 public operations x edge operands (0, +-1, infinities, precision 0/1, huge shifts and exponents, empty / non-ASCII / arbitrary strings) of all crates: an undocumented panic, a missing documented panic, fuel exhaustion (non-termination in logical steps) or allocation beyond the cap is a violation; parsers are fed grammar mutations and raw byte strings and must return Err. The thorough tier repeats the sweep in the release profile (debug assertions off).",
          "The list of documented preconditions is transcribed from the API docs; 'bounded time' is decided by loop-iteration fuel scaled with precision, the wall clock only guards the harness.", "DESIGN.md §4 C16"),
+ "C19": ("differential runtime monitoring across build configurations: the same seeded workloads executed by binaries built from the working tree with {64,32}-bit words x {std,no_std} x {debug assertions on,off}; digest diff against the reference build, in-process serde/byte round-trip and canonical-decoding monitors, and the other properties' oracle monitors re-run inside every configuration",
+         "Runtime monitoring: quick = 4 configurations covering each axis value, thorough = all 8; per configuration the digest worker evaluates integer, float, rational, text/byte and serde (serde_json, postcard) cases and must print exactly the digests of the reference build; serde and byte encodings must round-trip, mutated streams must give Err or a canonical value (layout hook, lowest terms, non-zero denominator, normalised significand), log2 bounds must enclose an interval-arithmetic logarithm in each build; then the monitors of C01..C18 (thorough: all; quick: the word-size sensitive ones at reduced counts) run in that configuration with their exact oracles.",
+         "Word size is switched by --cfg force_bits (pointer width stays 64); force_bits=16 does not compile on this host and is not covered; each binary reports its own word size / std / assertion / overflow-check state, which is recorded in the evidence.", "DESIGN.md §4 C19"),
 }
 NOT_YET = "monitor not built yet in this round (design in DESIGN.md §4); no claim is made until its check exists and is silent on the unchanged tree"
 
